@@ -126,6 +126,7 @@ def run_group(case):
     fields = growth_fields(bounds, n, gscale)
     radii = nuc_radii(bounds)
     rest = list(itertools.product(pops, repeat=n - 1))
+    nontriv = 0
     for tail in rest:
         psd_l = [p0] + list(tail)
         psd = np.array(psd_l, dtype=float)
@@ -134,6 +135,7 @@ def run_group(case):
             g = np.array(g_l, dtype=float)
             gmax = max(abs(x) for x in g_l)
             F = ref_face_fluxes(bounds, g_l, psd_l)
+            nontriv += 1 if any(f != 0 for f in F) else 0   # distinct (population, growth) pairs that move particles
             fscale = max([abs(f) for f in F] + [1e-300])
             # ---- getdXdtEuler over nucleation alphabets
             for rate in (0.0, 7.0):
@@ -206,8 +208,9 @@ def run_group(case):
                             bad('negative-under-own-limit', 'n=%d/%s' % (n, fname),
                                 'dt=%g*limit: new=%r psd=%r g=%r' % (mult, new.tolist(), psd_l, g_l))
                     outcomes.add('limited' if L != F else 'unlimited')
-    return {'viol': list(viol.values()), 'states': nev, 'transitions': nev, 'traces': nev,
-            'outcome': ','.join(sorted(outcomes))[:200], 'nontrivial': True,
+    return {'viol': list(viol.values()), 'states': nev, 'transitions': nev, 'traces': nev, 'evaluations': nev,
+            'nontrivial_count': nontriv,
+            'outcome': ','.join(sorted(outcomes))[:200],
             'info': {'evaluations': nev}}
 
 
